@@ -1195,6 +1195,9 @@ pub struct PrevConn {
     /// how many bytes of a 40-byte PUBLISH / of the CONNACK had arrived when the transport ended
     pub tail: u8,
     pub err: bool,
+    /// Maximum Packet Size the earlier server announced (0 = none)
+    #[serde(default)]
+    pub max_packet: u8,
 }
 
 fn cause() -> BoxedStrategy<Cause> {
@@ -1259,10 +1262,10 @@ impl Property for C13 {
                 }
                 C13Case::Connect { connack, auth, cut, err, previous: None }
             });
-        let conn_case = (conn_case, proptest::option::weighted(0.4, (any::<bool>(), 0u8..40, any::<bool>())))
+        let conn_case = (conn_case, proptest::option::weighted(0.4, (any::<bool>(), 0u8..40, any::<bool>(), prop_oneof![Just(0u8), 16u8..64])))
             .prop_map(|(mut c, p)| {
                 if let C13Case::Connect { previous, .. } = &mut c {
-                    *previous = p.map(|(reached_run, tail, err)| PrevConn { reached_run, tail, err });
+                    *previous = p.map(|(reached_run, tail, err, max_packet)| PrevConn { reached_run, tail, err, max_packet });
                 }
                 c
             });
@@ -1367,7 +1370,10 @@ fn connect_phase(connack: &rc::Connack, auth: Option<&rc::Auth>, cut: Option<u16
         w.tick();
         w.start_connect(ConnectSpec::default());
         settle(&mut w, &plan, false);
-        let first = rc::encode(&rc::Packet::Connack(rc::Connack::default()), &rc::Form::canonical());
+        let first = rc::encode(
+            &rc::Packet::Connack(rc::Connack { maximum_packet_size: if p.max_packet == 0 { None } else { Some(p.max_packet as u32) }, ..Default::default() }),
+            &rc::Form::canonical(),
+        );
         let partial: Vec<u8> = if p.reached_run {
             w.reader.feed(first);
             settle(&mut w, &plan, false);
@@ -1467,6 +1473,46 @@ fn connect_phase(connack: &rc::Connack, auth: Option<&rc::Auth>, cut: Option<u16
                     sig: "C13/connect/wrong-outcome".into(),
                     msg: format!("connect() = {got:?}\n   want {want:?}"),
                 });
+            }
+            // the authorize() leg: after an AUTH challenge the user answers with an AUTH of some
+            // size and the server's CONNACK decides
+            if auth.is_some() && cut_at.is_none() {
+                let n = w.conn_results.len();
+                w.tick();
+                let data_len = 1 + (connack.reason as usize * 7 + connack.user_props.len() * 13) % 90;
+                if !w.start_authorize(AuthSpec { reason: Some(0x18), method: Some("m".into()), data: Some(vec![3; data_len]), user_props: vec![] }) {
+                    return None;
+                }
+                settle(&mut w, &plan, false);
+                if w.conn_results.len() > n {
+                    return Some(Failure {
+                        sig: "C13/authorize/returned-before-response".into(),
+                        msg: format!("authorize() with {data_len} bytes of authentication data returned {:?} before the server answered", w.conn_results.last()),
+                    });
+                }
+                w.reader.feed(rc::encode(&rc::Packet::Connack(connack.clone()), &rc::Form::canonical()));
+                settle(&mut w, &plan, false);
+                if let Some(p) = first_panic(&w) {
+                    return Some(Failure { sig: format!("PANIC/{}", panic_sig(&p)), msg: p });
+                }
+                let got = w.conn_results.get(n..).and_then(|v| v.last()).cloned();
+                let want = if connack.reason < 0x80 {
+                    ConnRes::Connack(connack_expected(connack))
+                } else {
+                    ConnRes::Err(ErrSum::Connect {
+                        reason: connack.reason,
+                        reason_string: connack.reason_string.clone(),
+                        server_reference: connack.server_reference.clone(),
+                        user_props: connack.user_props.clone(),
+                    })
+                };
+                o.class("authorize-leg");
+                if got.as_ref() != Some(&want) {
+                    return Some(Failure {
+                        sig: "C13/authorize/wrong-outcome".into(),
+                        msg: format!("authorize() = {got:?}\n   want {want:?}"),
+                    });
+                }
             }
             None
         }
